@@ -155,7 +155,28 @@ def build(tier="quick", seed=0):
         tree = ("arr", [("leaf", 0x12), ("arr", [("leaf", name_v), ("arr", [("arr", [("arr", [("leaf", ident[0]), ("leaf", ident[1])]), ("arr", [("leaf", "x"), ("leaf", None), ("leaf", None), ("leaf", None), ("leaf", 1)])])])])])
         return it.call(it.getattr_(packer, "unpack_obj"), [14, MPBytes(tree)], {})
 
-    ENTRIES = {"api": entry_api, "stream": entry_stream, "json": entry_json, "avro_doc": entry_avro_doc, "avro_schema": entry_avro_schema, "grouped_api": entry_grouped_api, "grouped_stream": entry_grouped_stream}
+    def entry_api_clone(name_v, fields_v):
+        # the (deprecated) clone form: RecordDescriptor(name, <another descriptor>) takes the field list of that descriptor and the NEW name
+        proto = it.call(RD, ["c06/proto", []], {})
+        return it.call(RD, [name_v, proto], {})
+
+    def entry_api_one_string(name_v, fields_v):
+        # the (deprecated) one-string form: the definition text is split by parse_def(); assumed: parse_def returns SOME name text and SOME (type, name) pairs -
+        # the gate is proved for arbitrary text in these positions
+        it.contracts["parse_def"] = lambda it_, fn_, args, kwargs: (name_v, list(fields_v))
+        try:
+            return it.call(RD, ["<one-string definition>"], {})
+        finally:
+            it.contracts.pop("parse_def", None)
+
+    def entry_stream_nested(name_v, fields_v):
+        # a descriptor frame whose field-list slot holds ANOTHER descriptor frame: the decoder resolves the inner frame first and hands a descriptor object over
+        packer = it.call(pk.g["RecordPacker"], [], {})
+        inner = MPBytes(("arr", [("leaf", 2), ("arr", [("leaf", "c06/inner"), ("arr", [])])]))
+        tree = ("arr", [("leaf", 2), ("arr", [("leaf", name_v), ("ext", 14, inner)])])
+        return it.call(it.getattr_(packer, "unpack_obj"), [14, MPBytes(tree)], {})
+
+    ENTRIES = {"api_clone": entry_api_clone, "api_one_string": entry_api_one_string, "stream_nested": entry_stream_nested, "api": entry_api, "stream": entry_stream, "json": entry_json, "avro_doc": entry_avro_doc, "avro_schema": entry_avro_schema, "grouped_api": entry_grouped_api, "grouped_stream": entry_grouped_stream}
     SHAPES = {
         "one_field": lambda: [(SStr(tn), SStr(fn))],
         "no_field": lambda: [],
@@ -262,13 +283,17 @@ def build(tier="quick", seed=0):
                 return Result(name, "undecided", "vacuous: no path reaches exec", paths=r.paths)
             return r
 
-        return Obligation(name, run, replay=lambda w: {"call": "c06_definition", "args": w}, functions=FU_GATE + {"stream": ("flow.record.packer:RecordPacker.unpack_obj", "flow.record.base:RecordDescriptor._unpack"), "json": ("flow.record.jsonpacker:JsonRecordPacker.unpack_obj",),
+        return Obligation(name, run, replay=lambda w: {"call": "c06_definition", "args": w if w else {"entry": entry}}, functions=FU_GATE + {"stream": ("flow.record.packer:RecordPacker.unpack_obj", "flow.record.base:RecordDescriptor._unpack"), "json": ("flow.record.jsonpacker:JsonRecordPacker.unpack_obj",),
                                                                                                               "avro_doc": ("flow.record.adapter.avro:schema_to_descriptor",), "avro_schema": ("flow.record.adapter.avro:schema_to_descriptor", "flow.record.adapter.avro:avro_type_to_flow_type"), "api": (),
-                                                                                                              "grouped_api": ("flow.record.base:GroupedRecord.__init__",), "grouped_stream": ("flow.record.packer:RecordPacker.unpack_obj", "flow.record.base:GroupedRecord.__init__")}[entry])
+                                                                                                              "api_clone": (), "api_one_string": ("flow.record.base:parse_def (assumed: returns some name and some pairs)",), "stream_nested": ("flow.record.packer:RecordPacker.unpack_obj", "flow.record.base:RecordDescriptor._unpack"), "grouped_api": ("flow.record.base:GroupedRecord.__init__",), "grouped_stream": ("flow.record.packer:RecordPacker.unpack_obj", "flow.record.base:GroupedRecord.__init__")}[entry])
 
     for entry in ENTRIES:
         for shape in SHAPES:
             if entry != "api" and shape in ("same_field_twice",):
+                continue
+            if entry in ("api_clone", "stream_nested") and shape != "no_field":
+                continue  # (only the NAME is new text in these forms; the field list is that of an already accepted descriptor)
+            if entry == "api_one_string" and shape not in ("one_field", "no_field"):
                 continue
             if entry.startswith("grouped") and shape != "no_field":
                 continue  # (the name of the group is the only text a grouped record defines itself; its members are definitions of their own)
